@@ -458,6 +458,32 @@ fn check_partition(c: &OCase, obs: &mut Obs) -> CheckResult {
         obs.class("integer_elements");
         obs.class_if(k + 1 == ints.len(), "integer_exact_fit");
     }
+    // ---- every valid element equal to an extreme of the type (a sentinel-seeded search sees no
+    // "improvement" over its seed there): indices must still be those of valid elements
+    if n >= 1 {
+        for ext in [f64::INFINITY, f64::NEG_INFINITY, f64::MAX, f64::MIN] {
+            let xe: Vec<f64> = c.x.iter().map(|v| if v.is_some() { ext } else { f64::NAN }).collect();
+            for kk in [0usize, k] {
+                let idxs: Vec<i32> = Iterator::collect(xe.varg_partition(kk, sort, rev));
+                let m2 = (kk + 1).min(n);
+                let ok = idxs.len() == kk + 1 && idxs[..m2].iter().all(|i| *i >= 0 && (*i as usize) < xe.len() && c.x[*i as usize].is_some()) && idxs[m2..].iter().all(|i| *i == -1);
+                if !ok {
+                    return fail(format!("varg_partition:type-extreme:{}", shape), format!("varg_partition(k={}, sort {}, rev {}) of a series whose {} valid elements all equal {:e} (nulls as in {:?}) = {:?}", kk, sort, rev, n, ext, c.x, idxs));
+                }
+                let vals: Vec<f64> = Iterator::collect(xe.vpartition(kk, sort, rev));
+                if vals.len() != kk + 1 || vals[..m2].iter().any(|v| *v != ext) || vals[m2..].iter().any(|v| !v.is_nan()) {
+                    return fail(format!("vpartition:type-extreme:{}", shape), format!("vpartition(k={}, sort {}, rev {}) of a series whose valid elements all equal {:e} = {:?}", kk, sort, rev, ext, vals));
+                }
+            }
+        }
+        let xi: Vec<i32> = c.x.iter().map(|_| if rev { i32::MIN } else { i32::MAX }).collect();
+        if k + 1 <= xi.len() {
+            let idxs: Vec<i32> = Iterator::collect(xi.varg_partition(k, sort, rev));
+            if idxs.len() != k + 1 || idxs.iter().any(|i| *i < 0) {
+                return fail(format!("varg_partition:i32-type-extreme:{}", shape), format!("varg_partition(k={}, sort {}, rev {}) of {} copies of the i32 extreme = {:?}", k, sort, rev, xi.len(), idxs));
+            }
+        }
+    }
     let has_tie = s.windows(2).any(|w| w[0] == w[1]);
     obs.set_nontrivial(n >= 3 && c.x.first().map(|v| v.is_none()).unwrap_or(false) && has_tie);
     obs.class_if(k + 1 >= n, "k>=valid-1");
@@ -542,6 +568,24 @@ fn main() {
     )
     .assume("canonical nulls only (DESIGN 5.4); partitions run on nullable element types (5.7)");
     p.add(sub("vquantile", 20000, 600000, o_case, check_quantile));
+    // the same data in a very small unit (neighbouring order statistics distinct but <= 1e-14 apart): an
+    // absolute tolerance anywhere in the interpolation shows up here
+    p.add(sub(
+        "vquantile:tiny_unit",
+        6000,
+        200000,
+        |t| {
+            o_case(t).prop_map(|mut c| {
+                if c.enc != Enc::I32 {
+                    for v in c.x.iter_mut() {
+                        *v = v.map(|x| x * 1e-15);
+                    }
+                }
+                c
+            })
+        },
+        check_quantile,
+    ));
     p.add(sub("vpercentile_of", 10000, 300000, o_case, check_percentile));
     p.add(sub("vrank", 20000, 600000, o_case, check_rank));
     p.add(sub("partition", 20000, 600000, o_case, check_partition));
